@@ -372,14 +372,16 @@ PROPS = {
     },
     "C13": {
         "n": {"quick": 400, "thorough": 20000},
-        "cone": ["Bytes", "Generic", "GenericLemmas"],
+        "cone": ["Bytes", "Generic", "GenericLemmas", "DecideLang", "GeneratedSkel", "DecideLoops"],
         "rule": "random command lists (1-10) with failure strings planted at none/first/middle/last/several outputs, "
                 "driver-level x operation-level failure lists, stop-on-failed on/off, SendCommands / SendCommand-each / "
                 "SendCommandsFromFile through generic.Driver over the simulated transport; non-trivial = some response "
                 "failed and more than one command Half of the cases first run another operation with its own operation-level list (and sometimes stop-on-failed) on the same driver: nothing of it may carry over.",
         "trusted_base": ["exchange with the device abstracted as (command, output) pairs in the C13 theorems; "
                          "the exchange itself is C01's subject"],
-        "level_text": "Theorems C13_failed_iff/_failed_first/_precedence/_multi/_nostop/_stop/_collapse over the model of "
+        "level_text": "C13_scan_is_source / C13_record_is_source: util.StringContainsAnySubStrs and Response.Record AS TRANSLATED FROM THE "
+                      "SOURCE ON THIS RUN compute the model's scan and failure mark, for every string and list (induction over the loop). "
+                      "Theorems C13_failed_iff/_failed_first/_precedence/_multi/_nostop/_stop/_collapse over the model of "
                       "Response.Record, MultiResponse.AppendResponse, sendCommand/SendCommands and SendConfig's collapse hold for all "
                       "outputs, lists and command sequences (list induction, no bound); the model is tied to the code by running "
                       "generic.Driver end-to-end against a simulated device and comparing failed flags, matched strings, aggregate, "
